@@ -13,11 +13,11 @@ import (
 
 func init() {
 	register(&Check{
-		ID:   "C17",
-		Rule: "every civil day in the year set (thorough: all days 1..9998) at noon (slot-edge times rotate by day number for the constructor round trips): Tao/Foto year-month-day against lunar year +2697/+544, NewTao/NewFoto(fields) -> same moment -> same fields, every day-class predicate recorded in a functional-dependence table keyed by (signed lunar month, lunar day, day pillar, day's term) and compared with membership in the exported TaoUtil/FotoUtil tables for non-leap months. non-trivial = days in leap months, days whose lunar year differs from the civil year, and days on which some predicate is true",
-		Assume: []string{"the six-fasting-day predicate is by definition also a function of the month length (28th/29th substitute in a short month), so its dependence key carries the month length", "leap months: dependence only, the definitions do not say"},
-		Shards: func(tier string, seed int64) []Shard { return yearShards(tier, seed, 9998, "") },
-		Run:    runC17,
+		ID:            "C17",
+		Rule:          "every civil day in the year set (thorough: all days 1..9998) at noon (slot-edge times rotate by day number for the constructor round trips): Tao/Foto year-month-day against lunar year +2697/+544, NewTao/NewFoto(fields) -> same moment -> same fields, every day-class predicate recorded in a functional-dependence table keyed by (signed lunar month, lunar day, day pillar, day's term) and compared with membership in the exported TaoUtil/FotoUtil tables for non-leap months. non-trivial = days in leap months, days whose lunar year differs from the civil year, and days on which some predicate is true",
+		Assume:        []string{"the six-fasting-day predicate is by definition also a function of the month length (28th/29th substitute in a short month), so its dependence key carries the month length", "leap months: dependence only, the definitions do not say"},
+		Shards:        func(tier string, seed int64) []Shard { return yearShards(tier, seed, 9998, "") },
+		Run:           runC17,
 		MinNontrivial: 100,
 	})
 }
